@@ -15,6 +15,7 @@ func init() {
 		c16Encoded(c)
 		c16Headers(c)
 		c16Gate(c)
+		c16ContainsHelper(c)
 		c16Codecs(c)
 		c16JsonpHead(c)
 		c16JsonpBody(c)
@@ -583,4 +584,50 @@ func c16HeadersFn(c *core.Ctx, R string) {
 		ok = ok && !inLoop
 	}
 	c.Check(R, "transports.(*polling).headers/no-store+emit(headers)-once", u.Pos(), ok, "one headers event per call, same bag returned")
+}
+
+// c16ContainsHelper — C16.3b: the negotiation helper picks a coding only when the header contains its name.
+func c16ContainsHelper(c *core.Ctx) {
+	const R = "C16.3b"
+	c.Rule(R, "utils.Contains(haystack, needles) returns a needle only on the true edge of strings.Contains(haystack, needle) (whole-token substring, not any shared character) and \"\" otherwise, trying the needles in order")
+	u := c.Fn(R, "utils.Contains")
+	if u == nil {
+		return
+	}
+	info := u.Info()
+	g := u.Graph()
+	okLoop := false
+	var loopVar string
+	ast.Inspect(u.Body, func(n ast.Node) bool {
+		if rs, isR := n.(*ast.RangeStmt); isR && isLocal(info, rs.X, paramName(u, 1)) {
+			if v, isId := rs.Value.(*ast.Ident); isId {
+				loopVar = v.Name
+				okLoop = true
+			}
+		}
+		return true
+	})
+	contains := func(x *core.Unit, br core.Branch) int {
+		ce, isC := ast.Unparen(br.Cond).(*ast.CallExpr)
+		if !isC || x.CalleeKey(ce) != "strings.Contains" || len(ce.Args) != 2 {
+			return 0
+		}
+		if isLocal(x.Info(), ce.Args[0], paramName(u, 0)) && isLocal(x.Info(), ce.Args[1], loopVar) {
+			return 1
+		}
+		return 0
+	}
+	okRet, okEmpty := false, false
+	for _, r := range returnsIn(u) {
+		if len(r.Stmt.Results) != 1 {
+			continue
+		}
+		if isLocal(info, r.Stmt.Results[0], loopVar) {
+			okRet = g.GuardedBy(r.Loc, contains)
+		}
+		if s, isS := core.ConstString(info, r.Stmt.Results[0]); isS && s == "" {
+			okEmpty = true
+		}
+	}
+	c.Check(R, "utils.Contains/needle-iff-strings.Contains", u.Pos(), okLoop && okRet && okEmpty, keyf("ranges over the needles: %v; returns the needle on strings.Contains(haystack, needle): %v; \"\" otherwise: %v", okLoop, okRet, okEmpty))
 }
